@@ -168,7 +168,8 @@ class Machine:
       sym_sys: {attr: mask}  bits of control registers that are symbolic (others keep their reset value)
       set_sys: {attr: value} concrete overrides applied before sym_sys
       e_sym: CPSR.E symbolic (default False -> E = 0)
-      it: 'none' (ITSTATE=0) | 'any' (any valid ITSTATE, Thumb only)
+      it: 'none' (ITSTATE=0) | 'any' (any valid ITSTATE, Thumb only) | 'block' (inside an IT block) |
+          'block:k' (inside a block whose condition has bits [3:1] = k)
       mem: 'sym'
     """
 
@@ -207,6 +208,13 @@ class Machine:
         it_kind = opts.get('it', 'none')
         if thumb and it_kind == 'any':
             itv = env.bvvar('cpsr_it', 8)
+        elif thumb and isinstance(it_kind, str) and it_kind.startswith('block'):
+            # inside an IT block; 'block:k' pins ITSTATE[7:5] (the base condition without its low bit) to k --
+            # a case split of 'any' that specialises the condition multiplexer of the oracle
+            if ':' in it_kind:
+                itv = pieces(env, 'cpsr_it', 8, 0x1F, int(it_kind.split(':')[1]) << 5)
+            else:
+                itv = env.bvvar('cpsr_it', 8)
         else:
             itv = BV(0, 8)
         evar = env.bvvar('cpsr_e', 1) if opts.get('e_sym', False) else BV(opts.get('e', 0), 1)
@@ -223,6 +231,8 @@ class Machine:
             env.assume(z3.Or(*[mv == m for m in allowed]))
         if thumb and it_kind == 'any':
             env.assume(z3.Or(itv == 0, z3.Extract(3, 0, itv) != 0))
+        elif thumb and isinstance(it_kind, str) and it_kind.startswith('block'):
+            env.assume(z3.Extract(3, 0, itv) != 0)
         for k in SPSRS:
             t = env.bvvar('spsr_' + k, 32)
             pre.spsr[k] = t
